@@ -4,7 +4,7 @@ HISTORY correspondence: random interleavings of the FormulaManager constructors 
 spelling, Symbol/get_or_create_symbol/FreshSymbol, normalising constructors, Array with permuted /
 duplicated / default-valued assignments, normalize between environments) on 1-3 fresh Environments;
 the returned node_ids and the final formulae tables are compared with core/Manager.v replayed inside
-Coq.  Property-level oracle (independent of the model): tocoq.skey structural keys, blueprint
+Coq.  Property-level oracle (independent of the model): interned structural keys (tocoq.skey's definition), blueprint
 read-backs through the FNode accessors, same-request/same-outcome, copies structurally equal and
 disjoint from the source environment.
 """
@@ -26,19 +26,22 @@ TRUSTED = [
     "TypeManager.normalize), tied to pysmt/formula.py, fnode.py, typing.py, walkers/identitydag.py by history "
     "correspondence (returned node_ids and complete final tables, this run's counts below)",
     "models/TypeChecker.v (tc_rule) for the type check create_node performs; tied by C03's exhaustive correspondence",
-    "harness/tocoq.py skey: independent structural key used by the property-level oracle",
+    "harness/c04.py Interner (hash-consed form of tocoq.skey's structural key) used by the property-level oracle",
     "CPython semantics assumed by the model: ==/hash across int, bool, float, Fraction; dict insertion order; id() "
     "is injective on live objects and stable (nodes are never freed: the manager's table holds them)",
 ]
 ASSUME = [
     "requests mention only nodes of the manager they are sent to (Python cannot name a node that does not exist; mixing "
     "nodes of different managers is outside the property); quantified variables are symbols",
-    "the walker state after an exception inside normalize (dirty stack) is C15's subject: histories send no further "
-    "normalize request to a manager after one failed there",
+    "histories send no further normalize request to a manager after one failed there (the walker's state after an exception "
+    "is C15's subject)",
     "a custom sort name is declared with one arity across the environments of a history; sort names do not clash with "
     "built-in sort names",
     "Pow on constants is modelled for Int/Real bases with integral exponents whose result is exact (no float pow); "
     "BVConcat with more than two arguments is modelled when every argument has a bit-vector width",
+    "normalize_copy is proved for array-value-free formulas whose nodes are fixed points of their constructors' normalisation "
+    "(copyable); that the implementation's constructors only build such nodes is checked on every node of every history "
+    "(nodes_copyable in the case files), not proved",
     "object addresses (id()) enter the model as an arbitrary injective function; the theorems hold for every such function, "
     "the correspondence feeds the observed order",
 ]
@@ -227,6 +230,52 @@ def isnum(n):
     return isic(n) or isrc(n)
 
 
+class Interner(object):
+    """independent structural keys as small integers: key(n) = intern((node type, payload, keys of children));
+    linear in DAG size (nested tuples would be compared and hashed as trees)"""
+
+    def __init__(self):
+        self.tab = {}
+        self.memo = {}
+        self.cmemo = {}
+
+    @staticmethod
+    def payload(n):
+        nt = n.node_type()
+        if nt in (op.FORALL, op.EXISTS):
+            return tuple((v.symbol_name(), tdesc(v.symbol_type())) for v in n.quantifier_vars())
+        if nt == op.SYMBOL:
+            return (n.symbol_name(), tdesc(n.symbol_type()))
+        if nt == op.FUNCTION:
+            return (n.function_name().symbol_name(), tdesc(n.function_name().symbol_type()))
+        if nt == op.ARRAY_VALUE:
+            return tdesc(n.array_value_index_type())
+        if nt == op.REAL_CONSTANT:
+            v = Fraction(n.constant_value())
+            return (v.numerator, v.denominator)
+        if nt == op.BOOL_CONSTANT:
+            return ("bool", bool(n.constant_value()))
+        return n._content.payload
+
+    def intern(self, k):
+        r = self.tab.get(k)
+        if r is None:
+            r = self.tab[k] = len(self.tab)
+        return r
+
+    def key(self, f, canon=False):
+        memo = self.cmemo if canon else self.memo
+        for n in tocoq.topo([f]):
+            if id(n) in memo:
+                continue
+            kids = [memo[id(c)] for c in n.args()]
+            if canon and n.is_array_value():
+                prs = sorted(zip(kids[1::2], kids[2::2]))
+                kids = [kids[0]] + [x for p in prs for x in p]
+            memo[id(n)] = self.intern((canon, n.node_type(), self.payload(n), tuple(kids)))
+        return memo[id(f)]
+
+
 class EnvState(object):
     def __init__(self, k):
         self.k = k
@@ -253,8 +302,21 @@ class History(object):
         self.kinds = []
         self.complaints = []      # (key, message, op index)
         self.tainted = [set() for _ in range(nenv)]   # ids built from raw create_node nodes
+        self.keys = Interner()
+        self.tdm = {}             # id(node) -> type descriptor (computed by the node's own environment)
 
     # ------------------------------------------------------------------ helpers
+    def td(self, n):
+        r = self.tdm.get(id(n))
+        if r is None:
+            for E in self.envs:
+                if E.m.formulae.get(n._content) is n:
+                    r = self.tdm[id(n)] = tdesc(E.env.stc.get_type(n))
+                    break
+            else:
+                r = tdesc(n.get_type())
+        return r
+
     def name(self, E, n):
         return "n%d_%d" % (E.k, n.node_id())
 
@@ -263,7 +325,7 @@ class History(object):
         return self.rnd.choice(c) if c else None
 
     def oftype(self, E, d):
-        return self.pick(E, lambda n: tdesc(n.get_type()) == d)
+        return self.pick(E, lambda n: self.td(n) == d)
 
     def kind_arg(self, E, k, ctx):
         """argument for a signature letter; ctx carries choices shared between letters"""
@@ -282,17 +344,17 @@ class History(object):
             return self.oftype(E, ctx["N"])
         if k == "X":
             if "X" not in ctx:
-                n = self.pick(E, lambda n: tdesc(n.get_type())[0] != "Fun")
-                ctx["X"] = tdesc(n.get_type()) if n is not None else I
+                n = self.pick(E, lambda n: self.td(n)[0] != "Fun")
+                ctx["X"] = self.td(n) if n is not None else I
             return self.oftype(E, ctx["X"])
         if k == "V":
             if "V" not in ctx:
                 ctx["V"] = rnd.choice([BVt(1), BVt(4), BVt(4), BVt(8)])
             return self.oftype(E, ctx["V"])
         if k == "A":
-            n = self.pick(E, lambda n: tdesc(n.get_type())[0] == "Arr")
+            n = self.pick(E, lambda n: self.td(n)[0] == "Arr")
             if n is not None:
-                ctx["A"] = tdesc(n.get_type())
+                ctx["A"] = self.td(n)
             return n
         if k == "K":
             return self.oftype(E, ctx["A"][1]) if "A" in ctx else self.pick(E)
@@ -355,7 +417,7 @@ class History(object):
         pref = {"x": I, "y": R, "z": B, "p": BVt(4), "q": BVt(8), "f": F_II, "g": F_IRB, "v": ARR_II, "w": ARR_B4B, "s": S,
                 "FV0": U0, "FV1": P_I, "FV2": BVt(1), "a0b": F_B4, "": I}[nm]
         d = pref if rnd.random() < 0.85 else rnd.choice(TYPES)
-        if self.nested and rnd.random() < 0.5:
+        if rnd.random() < (0.5 if self.nested else 0.06):
             nm, d = rnd.choice([("nx", P_QI), ("ny", ARR_IP), ("nf", F_PI)])
         t = mkty(E.env, d)
         meth = rnd.choice(["Symbol", "get_or_create_symbol"])
@@ -406,7 +468,7 @@ class History(object):
         else:
             v = "a"
         denot = None
-        if type(v) in (int, Fraction, float, bool):
+        if type(v) in (int, Fraction, float):
             denot = Fraction(v)
         elif type(v) is tuple and v[1] != 0:
             denot = Fraction(v[0], v[1])
@@ -423,8 +485,9 @@ class History(object):
         v = {"int": z, "float": float(z), "frac": Fraction(z), "bool": bool(z % 2), "str": str(z)}[sp]
         return self.do(E, "Int", "RInt %s" % cpyval(v), "m%d.Int(%r)" % (E.k, v), lambda: E.m.Int(v),
                        reqkey=("Int", type(v).__name__, repr(v)),
-                       expect=lambda n: None if (n.is_int_constant() and type(n.constant_value()) is int and n.constant_value() == v
-                                                 and not n.args()) else ("Int(%r) returned %s" % (v, n)))
+                       expect=lambda n: None if (type(v) is int and n.is_int_constant() and type(n.constant_value()) is int
+                                                 and n.constant_value() == v and not n.args())
+                       else ("Int(%r) returned %s (only int is a spelling of an Int constant)" % (v, n)))
 
     def g_string(self, E):
         v = self.rnd.choice(["", "a", "ab", "a", "b\"c", 1])
@@ -581,7 +644,7 @@ class History(object):
             args = self.args_for(E, "XX")
             if args is None:
                 return None
-            isb = tdesc(args[0].get_type()) == B
+            isb = self.td(args[0]) == B
             return self.ctor(E, name, "CEqualsOrIff", name, args, expect=self.is_node(op.IFF if isb else op.EQUALS, args))
         if name == "ToReal":
             a = self.oftype(E, rnd.choice([I, I, R, B]))
@@ -589,7 +652,7 @@ class History(object):
                 return None
 
             def exp(n):
-                d = tdesc(a.get_type())
+                d = self.td(a)
                 if d == R:
                     return None if n is a else "ToReal(real) is not its argument"
                 if isic(a):
@@ -685,7 +748,7 @@ class History(object):
             args = [self.kind_arg(E, "V", dict(ctx)) for _ in range(k)]
             if any(a is None for a in args):
                 return None
-            if k > 2 and not all(tdesc(a.get_type())[0] == "BV" for a in args):
+            if k > 2 and not all(self.td(a)[0] == "BV" for a in args):
                 return None
 
             def exp(n):
@@ -779,14 +842,14 @@ class History(object):
     def g_array(self, E):
         rnd = self.rnd
         itd = rnd.choice([I, I, BVt(4), S])
-        d = self.pick(E, lambda n: tdesc(n.get_type())[0] not in ("Fun",))
+        d = self.pick(E, lambda n: self.td(n)[0] not in ("Fun",))
         if d is None:
             return None
-        ed = tdesc(d.get_type())
-        keys = [n for n in E.pool if n.is_constant() and tdesc(n.get_type()) == itd]
+        ed = self.td(d)
+        keys = [n for n in E.pool if n.is_constant() and self.td(n) == itd]
         if rnd.random() < 0.06:
-            keys = keys + [n for n in E.pool if tdesc(n.get_type()) == itd][:2]       # maybe a non-constant index
-        vals = [n for n in E.pool if tdesc(n.get_type()) == ed]
+            keys = keys + [n for n in E.pool if self.td(n) == itd][:2]       # maybe a non-constant index
+        vals = [n for n in E.pool if self.td(n) == ed]
         k = rnd.choice([0, 1, 2, 3, 4]) if keys else 0
         pairs = []
         for _ in range(k):
@@ -819,7 +882,8 @@ class History(object):
                     return "array_value_get of an unassigned index is not the default"
             return None
         n = self.do(E, "Array", coq, txt, (lambda: E.m.Array(it, d) if how == "none" else E.m.Array(it, d, dict(pairs))),
-                    reqkey=("Array", itd, d.node_id(), tuple(sorted((a.node_id(), b.node_id()) for a, b in eff.items()))), expect=exp)
+                    reqkey=("Array", itd, d.node_id(), tuple(sorted((a.node_id(), b.node_id()) for a, b in eff.items())),
+                            all(kk.is_constant() for kk in dct)), expect=exp)
         return n
 
     def g_raw(self, E):
@@ -877,8 +941,6 @@ class History(object):
             return None
         Sx = rnd.choice(srcs)
         f = rnd.choice(Sx.pool)
-        if not self.nested and any(has_nested_param(tdesc(s.symbol_type())) for s in self.symbols_of(f)):
-            return None
         idx = len(self.reqs)
         syms = self.symbols_of(f)
         conflict = any(s.symbol_name() in E.m.symbols and tdesc(E.m.symbols[s.symbol_name()].symbol_type()) != tdesc(s.symbol_type()) for s in syms)
@@ -903,8 +965,8 @@ class History(object):
             return n
         if conflict:
             return n
-        if tocoq.skey(n) != tocoq.skey(f):
-            if self.canon_key(n) == self.canon_key(f):
+        if self.keys.key(n) != self.keys.key(f):
+            if self.keys.key(n, True) == self.keys.key(f, True):
                 self.complaints.append(("normalize:array-assignment-order", "the copy of %s lists the array assignments in another order: %s"
                                         % (f.serialize(), n.serialize()), idx))
             else:
@@ -951,10 +1013,9 @@ class History(object):
         """whole-table oracle: one object per structure over ALL nodes ever created"""
         for E in self.envs:
             seen = {}
-            memo = {}
             for c, n in E.m.formulae.items():
                 try:
-                    k = tocoq.skey(n, memo)
+                    k = self.keys.key(n)
                 except Exception:   # noqa
                     continue
                 if k in seen and seen[k] is not n:
@@ -992,7 +1053,7 @@ class History(object):
     def coq_case(self):
         reqs = ";\n    ".join("(%d, %s)" % (e, r) for e, r in self.reqs)
         reps = "; ".join("None" if r is None else "(Some %d)" % r for r in self.replies)
-        return "(%d, %s,\n   [%s],\n   [%s],\n   %s)" % (len(self.envs), self.addrs(), reqs, reps, self.tables())
+        return "(%s, %d, %s,\n   [%s],\n   [%s],\n   %s)" % ("true" if self.raw else "false", len(self.envs), self.addrs(), reqs, reps, self.tables())
 
     def script(self, upto=None):
         hdr = ["from fractions import Fraction", "from pysmt.environment import Environment", "from pysmt.typing import *"]
@@ -1003,10 +1064,12 @@ class History(object):
 
 CASE_HDR = """From Coq Require Import List ZArith Bool String.
 From PySMT.core Require Import CaseUtil Syntax Manager.
+From PySMT.models Require Import TypeChecker.
+From PySMT.proofs Require Import Manager_proofs.
 Import ListNotations.
 Open Scope bool_scope.
 Open Scope nat_scope.
-Definition case := (nat * list (list Z) * list (nat * request) * list (option nat) * list (list content))%type.
+Definition case := (bool * nat * list (list Z) * list (nat * request) * list (option nat) * list (list content))%type.
 Definition addr_of (a : list (list Z)) (e i : nat) : Z := nth i (nth e a []) 0%Z.
 Definition reply_ok (m : res id) (p : option nat) : bool :=
   match m, p with
@@ -1026,12 +1089,19 @@ Fixpoint first_bad (m : list (res id)) (p : list (option nat)) (k : nat) : nat :
   | x :: r, y :: q => if reply_ok x y then first_bad r q (S k) else k
   | _, _ => k
   end.
+(* every well-typed, array-value-free node built through the public constructors satisfies the
+   hypothesis of normalize_copy *)
+Definition nodes_copyable (tb : list content) : bool :=
+  forallb (fun i => let t := unfold_tb tb i in
+                    negb (array_free t) || match tc t with None => true | Some _ => copyableb t end)
+          (seq 1 (List.length tb)).
 Definition ok (c : case) : bool :=
-  let '(n, a, reqs, reps, tabs) := c in
+  let '(raw, n, a, reqs, reps, tabs) := c in
   let (w, m) := wrun (addr_of a) (winit n) reqs in
-  replies_ok m reps && list_eqb (list_eqb content_eqb) (map table w) tabs.
+  replies_ok m reps && list_eqb (list_eqb content_eqb) (map table w) tabs &&
+  (raw || forallb nodes_copyable tabs).
 Definition diag (c : case) : nat :=
-  let '(n, a, reqs, reps, tabs) := c in
+  let '(raw, n, a, reqs, reps, tabs) := c in
   let (w, m) := wrun (addr_of a) (winit n) reqs in first_bad m reps 0.
 """
 
@@ -1184,7 +1254,7 @@ def run(tier, only=None):
         h = hists[i]
         at = diagnose(chk, h, str(i))
         disagreements.append({"history": tags[i], "first_differing_step": at,
-                              "call": h.py[at] if at is not None and at < len(h.py) else "(replies agree; final tables differ)"})
+                              "call": h.py[at] if at is not None and at < len(h.py) else "(replies agree; final tables differ, or a constructor-built node is not copyable)"})
         chk.note("model/implementation disagree in history %s at step %s: %s" % (tags[i], at, disagreements[-1]["call"]))
     chk.cov["correspondence"] = {"histories": len(hists), "calls": sum(len(h.reqs) for h in hists), "calls_raising": nerr,
                                  "environments": sum(len(h.envs) for h in hists), "nodes_compared": sum(len(E.m.formulae) for h in hists for E in h.envs),
